@@ -5,7 +5,7 @@
 use crate::common::{Part, Tier};
 use crate::corpus::{self, Config};
 use crate::mt::session;
-use serde_json::{Value, json};
+use serde_json::json;
 use std::collections::{BTreeMap, BTreeSet};
 use std::time::Duration;
 
@@ -260,5 +260,168 @@ pub fn part_names(tier: Tier) -> Part {
         by.insert("functions", universe.len());
         part.sample(json!({"config": cfg.tag(), "counts": by, "example": {"b::f": expected_fn("b::f"), "ab::f": expected_fn("ab::f"), "util.rs": expected_files("util.rs")}}));
     }
+    part
+}
+
+fn crate_lib(only: &str, k: u64) -> String {
+    format!("pub mod util;\n#[inline(never)]\npub fn init_unit(seed: u64) -> u64 {{\n    let value = seed + {k};\n    std::hint::black_box(value)\n}}\n#[inline(never)]\npub fn {only}(seed: u64) -> u64 {{\n    let value = seed * {k};\n    std::hint::black_box(value)\n}}\n")
+}
+
+const TWINS_MAIN: &str = "fn main() {\n    let mut a = std::env::args().count() as u64;\n    a = alpha::init_unit(a) + beta::init_unit(a);\n    a += alpha::only_a(a) + beta::only_b(a);\n    a += alpha::util::helper(a) + beta::util::helper(a);\n    println!(\"{a}\");\n}\n";
+
+fn build_crates() -> Result<(String, std::path::PathBuf), String> {
+    let dir = crate::common::build_dir().join("c17crates");
+    let mut fresh = true;
+    let srcs = [("alpha/src/lib.rs", crate_lib("only_a", 3)), ("beta/src/lib.rs", crate_lib("only_b", 5)), ("alpha/src/util.rs", util(21)), ("beta/src/util.rs", util(22)), ("twins.rs", TWINS_MAIN.to_string())];
+    for (n, t) in &srcs {
+        let p = dir.join(n);
+        std::fs::create_dir_all(p.parent().unwrap()).map_err(|e| e.to_string())?;
+        if std::fs::read_to_string(&p).map(|x| &x != t).unwrap_or(true) {
+            std::fs::write(&p, t).map_err(|e| e.to_string())?;
+            fresh = false;
+        }
+    }
+    let exe = dir.join("twins");
+    if fresh && exe.exists() {
+        return Ok((exe.display().to_string(), dir));
+    }
+    let d = dir.display().to_string();
+    let run = |args: &[&str]| -> Result<(), String> {
+        let o = std::process::Command::new("rustc").current_dir("/").arg("+1.89").args(["--edition", "2021", "-g", "-C", "opt-level=0"]).args(args).output().map_err(|e| e.to_string())?;
+        if o.status.success() { Ok(()) } else { Err(String::from_utf8_lossy(&o.stderr).to_string()) }
+    };
+    for c in ["alpha", "beta"] {
+        run(&["--crate-type", "rlib", "--crate-name", c, "-o", &format!("{d}/lib{c}.rlib"), &format!("{d}/{c}/src/lib.rs")])?;
+    }
+    run(&["--extern", &format!("alpha={d}/libalpha.rlib"), "--extern", &format!("beta={d}/libbeta.rlib"), "-o", &format!("{d}/twins"), &format!("{d}/twins.rs")])?;
+    Ok((exe.display().to_string(), dir))
+}
+
+/// Same-named source files and same-named functions, declared on the same lines, in two crates
+/// (two compilation units whose file tables number their files alike).
+pub fn part_crates(_tier: Tier) -> Part {
+    let mut part = Part::new("c17_names_across_crates");
+    part.rule = "program of three crates: alpha and beta each consist of src/lib.rs (fn init_unit on line 3, fn only_a / only_b on line 8) and src/util.rs (fn helper on line 2) with identical layout, so that the two compilation units give their files the same numbers and their functions the same names and declaration lines; every '/'-suffix of the four file paths plus partial-component near-misses as file template of a line breakpoint on a body line (4, 9 for lib.rs, 3 for util.rs), and every '::'-suffix of the six function paths plus near-misses as function template: the files / functions of the returned locations must be exactly those whose path ends with the components given (computed from the paths and from the binary's DWARF by an independent reader)".into();
+    let (exe, dir) = match build_crates() {
+        Ok(x) => x,
+        Err(e) => {
+            part.violate("MACHINERY:c17crates-build", e, json!(null));
+            return part;
+        }
+    };
+    let dref = match crate::dwarfref::load(&exe) {
+        Ok(d) => d,
+        Err(e) => {
+            part.violate("MACHINERY:dwarfref", e, json!(null));
+            return part;
+        }
+    };
+    let mut universe: Vec<(Vec<String>, u64, u64)> = vec![];
+    for f in dref.live_funcs() {
+        let Some(l) = &f.linkage else { continue };
+        let dem = format!("{:#}", rustc_demangle::demangle(l));
+        if !(dem.starts_with("alpha::") || dem.starts_with("beta::")) {
+            continue;
+        }
+        let comps: Vec<String> = dem.split("::").map(|s| s.to_string()).collect();
+        for (lo, hi) in &f.ranges {
+            universe.push((comps.clone(), *lo, *hi));
+        }
+    }
+    let fn_of = |addr: u64| -> Option<String> { universe.iter().find(|(_, lo, hi)| addr >= *lo && addr < *hi).map(|(c, _, _)| c.join("::")) };
+    let mut templates: BTreeSet<String> = BTreeSet::new();
+    for (comps, _, _) in &universe {
+        for k in 0..comps.len() {
+            let t = comps[k..].join("::");
+            templates.insert(t.clone());
+            if comps[k].len() > 1 && k + 1 < comps.len() {
+                templates.insert(format!("{}::{}", &comps[k][1..], comps[k + 1..].join("::")));
+            }
+            templates.insert(format!("z::{t}"));
+        }
+    }
+    let expected_fn = |t: &str| -> BTreeSet<String> {
+        let want: Vec<&str> = t.split("::").collect();
+        universe.iter().filter(|(c, _, _)| c.len() >= want.len() && c[c.len() - want.len()..].iter().zip(want.iter()).all(|(a, b)| a == b)).map(|(c, _, _)| c.join("::")).collect()
+    };
+    let groups: [(&[&str], u64); 3] = [(&["alpha/src/lib.rs", "beta/src/lib.rs"], 4), (&["alpha/src/lib.rs", "beta/src/lib.rs"], 9), (&["alpha/src/util.rs", "beta/src/util.rs"], 3)];
+    let all_files = ["alpha/src/lib.rs", "beta/src/lib.rs", "alpha/src/util.rs", "beta/src/util.rs"];
+    let expected_files = |t: &str| -> BTreeSet<String> {
+        let rooted = t.starts_with('/');
+        let want: Vec<&str> = t.split('/').filter(|c| !c.is_empty()).collect();
+        all_files
+            .iter()
+            .filter(|f| {
+                let full = dir.join(f).display().to_string();
+                let comps: Vec<&str> = full.split('/').filter(|c| !c.is_empty()).collect();
+                if want.is_empty() || want.len() > comps.len() {
+                    return false;
+                }
+                if rooted { comps == want } else { comps[comps.len() - want.len()..] == want[..] }
+            })
+            .map(|f| dir.join(f).display().to_string())
+            .collect()
+    };
+    let mut cmds = vec![json!({"op": "start"})];
+    let mut tsets = vec![];
+    for (i, (files, line)) in groups.iter().enumerate() {
+        let mut ft: BTreeSet<String> = BTreeSet::new();
+        for f in files.iter() {
+            let full = dir.join(f).display().to_string();
+            let comps: Vec<&str> = full.split('/').filter(|c| !c.is_empty()).collect();
+            for k in (comps.len().saturating_sub(4))..comps.len() {
+                ft.insert(comps[k..].join("/"));
+                if comps[k].len() > 1 {
+                    ft.insert(format!("{}/{}", &comps[k][1..], comps[k + 1..].join("/")).trim_end_matches('/').to_string());
+                }
+            }
+            ft.insert(format!("/{}", comps.join("/")));
+        }
+        ft.insert("gamma/src/lib.rs".into());
+        let fts: Vec<&String> = if i == 0 { templates.iter().collect() } else { vec![] };
+        cmds.push(json!({"op": "c17_names", "fn_templates": fts, "file_templates": ft.iter().collect::<Vec<_>>(), "line": line, "regexes": []}));
+        tsets.push((ft, *line));
+    }
+    let run = session(&exe, |obs| cmds.get(obs.len()).cloned(), Duration::from_secs(120), cmds.len());
+    let replay = json!({"engine": "mt", "exe": exe, "commands": cmds});
+    part.states += run.obs.len() as u64;
+    part.traces_validated += 1;
+    if run.hang_at.is_some() || run.crashed.is_some() || run.obs.len() < cmds.len() {
+        part.violate("C17:e2e:session-broke", format!("[crates] hang {:?} crash {:?}", run.hang_at, run.crashed), replay);
+        return part;
+    }
+    let base = crate::reftrace::elf_info(&exe).map(|i| i.base).unwrap_or(0);
+    let res = &run.obs[1]["res"];
+    for t in &templates {
+        part.evaluations += 1;
+        let addrs: Vec<u64> = res["fn"][t]["addrs"].as_array().map(|a| a.iter().filter_map(|x| x.as_u64()).collect()).unwrap_or_default();
+        let got: BTreeSet<String> = addrs.iter().map(|a| fn_of(*a).or_else(|| fn_of(a.wrapping_sub(base))).unwrap_or(format!("?{a:#x}"))).collect();
+        let want = expected_fn(t);
+        if !want.is_empty() {
+            part.distinct_nontrivial += 1;
+        }
+        if got != want {
+            let missing = want.difference(&got).count();
+            let extra = got.difference(&want).count();
+            let kind = if missing > 0 && extra == 0 { "misses-functions" } else if missing == 0 { "selects-extra-functions" } else { "selects-other-functions" };
+            part.violate(format!("C17:e2e:function-template-{kind}:across-crates"), format!("[crates] template `{t}` selects {got:?}, the binary has {want:?} ending with these components"), replay.clone());
+        }
+    }
+    for (i, (ft, line)) in tsets.iter().enumerate() {
+        let res = &run.obs[i + 1]["res"];
+        for t in ft {
+            part.evaluations += 1;
+            let got: BTreeSet<String> = res["file"][t]["files"].as_array().map(|a| a.iter().filter_map(|x| x.as_str().map(|s| s.to_string())).collect()).unwrap_or_default();
+            let want: BTreeSet<String> = expected_files(t).into_iter().filter(|f| groups[i].0.iter().any(|g| f.ends_with(g))).collect();
+            if !want.is_empty() {
+                part.distinct_nontrivial += 1;
+            }
+            if got != want {
+                let kind = if got.is_subset(&want) { "misses-files" } else if want.is_subset(&got) { "selects-extra-files" } else { "selects-other-files" };
+                part.violate(format!("C17:e2e:file-template-{kind}:across-crates"), format!("[crates] file template `{t}` (line {line}) selects {got:?}, expected {want:?}"), replay.clone());
+            }
+        }
+    }
+    part.sample(json!({"functions": universe.iter().map(|(c, _, _)| c.join("::")).collect::<Vec<_>>(), "function_templates": templates.len(), "file_templates": tsets.iter().map(|(f, _)| f.len()).sum::<usize>(), "example": {"lib.rs": expected_files("lib.rs"), "init_unit": expected_fn("init_unit")}}));
     part
 }
